@@ -33,8 +33,8 @@ type elObj struct {
 	gaugeSet          bool
 	lastTo            string
 	afterStart        bool
-	nTrans            int // transitions recorded by this object
-	startInFlight     int // Start calls of this object that have not returned yet
+	nTrans            int  // transitions recorded by this object
+	startInFlight     int  // Start calls of this object that have not returned yet
 	stopsDuringStart  int  // stop calls invoked while a Start was in flight that have not turned out to be no-ops
 	startOKPending    bool // a Start succeeded but overlapping stop calls are still undecided
 	terms             int
@@ -329,6 +329,7 @@ func (l *obsLogger) rec(msg string, fields []zap.Field) {
 	d.mu.Unlock()
 	o.appYield("app.logger")
 }
+
 // appYield: the application's plug-ins (Logger, Metrics) take time like any other code: every
 // call is a yield site ("app.logger" / "app.metrics"), so a goroutine can be held up inside one -
 // outside critical sections in every plan, inside them in the plans that park goroutines there.
